@@ -391,6 +391,9 @@ type vm struct {
 	result    Value
 
 	maxCallStackSize int
+	// nativeDepth counts the nested calls that recurse in Go without a script frame: a native function called
+	// from Go code, a built-in walking a cyclic structure. It counts towards maxCallStackSize.
+	nativeDepth int
 
 	stashAllocs int
 
@@ -985,6 +988,21 @@ func (vm *vm) pushCtx() {
 	vm.callStack = append(vm.callStack, context{})
 	ctx := &vm.callStack[len(vm.callStack)-1]
 	vm.saveCtx(ctx)
+}
+
+// enterNative accounts for one level of Go recursion that has no script frame (see vm.nativeDepth); each call
+// must be paired with leaveNative (deferred, because the stack overflow is a panic).
+func (vm *vm) enterNative() {
+	if len(vm.callStack)+vm.nativeDepth >= vm.maxCallStackSize {
+		ex := &StackOverflowError{}
+		ex.stack = vm.captureStack(nil, 0)
+		panic(ex)
+	}
+	vm.nativeDepth++
+}
+
+func (vm *vm) leaveNative() {
+	vm.nativeDepth--
 }
 
 func (vm *vm) restoreCtx(ctx *context) {
